@@ -209,6 +209,10 @@ struct Lifter<'a> {
     loopvars: HashMap<String, String>,
     /// L23: tolerant lift (observe mode only)
     tolerant: bool,
+    /// env depth at the entry of every enclosing closure that may run more than once (map / mapv / from_shape_fn)
+    closure_base: Vec<usize>,
+    /// variables of an enclosing scope that the closure being lifted mutates (reads of them are not liftable)
+    dirty_captured: Vec<String>,
     /// observables shared with the main function: binding name -> opaque spec fn to call instead of inlining
     shared: HashMap<String, String>,
     rebound_params: Vec<String>,
@@ -232,6 +236,17 @@ impl<'a> Lifter<'a> {
             }
         }
         None
+    }
+    /// is `name` a variable of an enclosing scope captured by the closure being lifted (a closure that may run more
+    /// than once: a mutation of it is visible to later invocations)?
+    fn captured(&self, name: &str) -> bool {
+        let Some(base) = self.closure_base.last().copied() else { return false };
+        for (k, m) in self.env.iter().enumerate().rev() {
+            if m.contains_key(name) {
+                return k < base;
+            }
+        }
+        false
     }
     fn bind(&mut self, name: &str, ty: &str) {
         self.env.last_mut().unwrap().insert(name.to_string(), ty.to_string());
@@ -352,10 +367,26 @@ impl<'a> Lifter<'a> {
             syn::Pat::Wild(_) => self.fresh("w"),
             _ => return unsupported("closure pattern", c),
         };
+        // variables of the enclosing scopes that the closure body mutates
+        let n_dirty = self.dirty_captured.len();
+        {
+            let blk: syn::Block = match &*cl.body {
+                syn::Expr::Block(b) => b.block.clone(),
+                other => syn::Block { brace_token: Default::default(), stmts: vec![syn::Stmt::Expr(other.clone(), None)] },
+            };
+            for a in Self::assigned_vars(&blk) {
+                if self.lookup(&a).is_some() {
+                    self.dirty_captured.push(a);
+                }
+            }
+        }
+        self.closure_base.push(self.env.len());
         self.env.push(HashMap::new());
         self.bind(&name, arg_ty);
         let b = self.scoped(&cl.body);
         self.env.pop();
+        self.closure_base.pop();
+        self.dirty_captured.truncate(n_dirty);
         Ok((name, b?))
     }
 
@@ -415,6 +446,9 @@ impl<'a> Lifter<'a> {
                 }
                 if p.path.segments.len() == 1 {
                     if let Some(t) = self.lookup(&s) {
+                        if self.dirty_captured.contains(&s) && self.captured(&s) {
+                            return Err(format!("construct outside rule list (lift): read of `{s}`, which a closure that runs more than once mutates"));
+                        }
                         return Ok(v(s, &t));
                     }
                 }
@@ -649,6 +683,11 @@ impl<'a> Lifter<'a> {
                     let tys: Vec<String> = all.iter().map(|t| t.ty.clone()).collect();
                     let txt: Vec<String> = all.iter().map(|t| t.text.clone()).collect();
                     return Ok(v(format!("({})", txt.join(", ")), &format!("({})", tys.join(", "))));
+                }
+                if !all.is_empty() && all.iter().all(|t| t.ty == "int") {
+                    // an index list `[i, j]`
+                    let txt: Vec<String> = all.iter().map(|t| t.text.clone()).collect();
+                    return Ok(v(format!("seq![{}]", txt.join(", ")), "Seq<int>"));
                 }
                 for t in all {
                     if t.ty != "real" {
@@ -1207,6 +1246,9 @@ impl<'a> Lifter<'a> {
                     },
                     _ => return unsupported("assignment target", e),
                 };
+                if self.captured(&name) {
+                    return Err(format!("construct outside rule list (lift): assignment to `{name}`, a variable captured by a closure that runs more than once"));
+                }
                 let x = self.expr(&a.right)?;
                 self.note("L5", e.span(), "reassignment lifted to a shadowing spec let");
                 self.bind(&name, &x.ty);
@@ -1222,6 +1264,9 @@ impl<'a> Lifter<'a> {
                     },
                     _ => return unsupported("compound assignment target", e),
                 };
+                if self.captured(&name) {
+                    return Err(format!("construct outside rule list (lift): compound assignment to `{name}`, a variable captured by a closure that runs more than once"));
+                }
                 let l = self.expr(&b.left)?;
                 let r_ = self.expr(&b.right)?;
                 let op = match b.op {
@@ -1532,6 +1577,39 @@ impl<'a> Lifter<'a> {
                 let k = |s: &mut Self| s.rest(rest, cont);
                 self.stmts_with_cont(&b.block.stmts, Some(&k))
             }
+            Expr::MethodCall(m) if m.method == "set" && m.args.len() == 2 && matches!(&*m.receiver, Expr::Path(p) if p.path.get_ident().map(|i| self.lookup(&i.to_string()).as_deref() == Some("RArr")).unwrap_or(false)) => {
+                // L5b: `x.set(i, e);` on a local array: x' = x with element i replaced
+                let Expr::Path(p) = &*m.receiver else { unreachable!() };
+                let name = p.path.get_ident().unwrap().to_string();
+                let idx = self.expr(&m.args[0])?;
+                let val = self.expr(&m.args[1])?;
+                if idx.ty != "int" || val.ty != "real" {
+                    return unsupported("set(index, value)", e);
+                }
+                let old = if self.captured(&name) {
+                    // the array lives outside a closure that runs more than once: earlier invocations may have changed
+                    // it - arbitrary array of the same length (L6; refutations resting on it are witness-gated)
+                    let hname = format!("{}__havoc_{name}", self.fn_name);
+                    let mut ps: Vec<(String, String)> = self.params.clone();
+                    let decl = format!(
+                        "pub uninterp spec fn {hname}({}, k__: int) -> RArr;",
+                        ps.iter().map(|(n, t)| format!("{n}: {t}")).collect::<Vec<_>>().join(", ")
+                    );
+                    if !self.havocs.contains(&decl) {
+                        self.havocs.push(decl);
+                    }
+                    ps.clear();
+                    self.note("L6", e.span(), &format!("`{name}` is mutated inside a closure that runs more than once: its value at closure entry is havoc'd"));
+                    let plist: Vec<String> = self.params.iter().map(|(n, _)| n.clone()).collect();
+                    format!("RArr {{ len: {name}.len, at: crate::{hname}({}, {}).at }}", plist.join(", "), idx.text)
+                } else {
+                    name.clone()
+                };
+                self.note("L5", e.span(), "element assignment lifted to a shadowing spec let");
+                self.bind(&name, "RArr");
+                let r = self.rest(rest, cont)?;
+                Ok(v(format!("{{ let {name} = {{ let o__ = {old}; RArr {{ len: o__.len, at: |k__: int| if k__ == {} {{ {} }} else {{ (o__.at)(k__) }} }} }}; {} }}", idx.text, val.text, r.text), &r.ty))
+            }
             Expr::Tuple(t) if t.elems.is_empty() => self.rest(rest, cont),
             Expr::Try(_) => {
                 // `e?;` — only the error propagation matters (hoisted match), the value is dropped
@@ -1657,6 +1735,10 @@ impl<'a> Lifter<'a> {
                 self.note("L11", whole.span(), "unit constructor erased");
                 return self.expr(&c.args[0]);
             }
+            "new" if (first == "Arc" || first == "Rc" || first == "Box") && c.args.len() == 1 => {
+                self.note("L12", whole.span(), "smart-pointer constructor is the identity");
+                return self.expr(&c.args[0]);
+            }
             "Some" | "Ok" | "Err" if p.path.segments.len() == 1 => {
                 let x = self.expr(&c.args[0])?;
                 let ty = match last.as_str() {
@@ -1692,6 +1774,15 @@ impl<'a> Lifter<'a> {
                     "RArr",
                 ));
             }
+            "Array1::zeros" | "Array::zeros" | "Array1::ones" | "Array::ones" if c.args.len() == 1 => {
+                let n = self.expr(&c.args[0])?;
+                if n.ty != "int" {
+                    return unsupported("zeros/ones shape", whole);
+                }
+                let x = if path.ends_with("zeros") { "0real" } else { "1real" };
+                self.note("L8", whole.span(), "zeros/ones lifted to a constant index function");
+                return Ok(v(format!("RArr {{ len: {}, at: |i__: int| {x} }}", n.text), "RArr"));
+            }
             "Array1::from_elem" | "Array::from_elem" => {
                 let n = self.expr(&c.args[0])?;
                 let x = self.expr(&c.args[1])?;
@@ -1718,12 +1809,14 @@ impl<'a> Lifter<'a> {
                     let syn::Expr::Closure(cl) = &c.args[1] else { return unsupported("from_shape_fn closure", whole) };
                     let syn::Pat::Tuple(tp) = &cl.inputs[0] else { return unsupported("from_shape_fn closure pattern", whole) };
                     let names: Vec<String> = tp.elems.iter().map(|p| p.to_token_stream().to_string()).collect();
+                    self.closure_base.push(self.env.len());
                     self.env.push(HashMap::new());
                     for nm in &names {
                         self.bind(nm, "int");
                     }
                     let body = self.scoped(&cl.body);
                     self.env.pop();
+                    self.closure_base.pop();
                     let body = body?;
                     self.note("L8", whole.span(), "from_shape_fn (2-D) lifted to an index function");
                     let at = if body.ty == "Rec" { "OArr2" } else { "RArr2" };
@@ -1833,6 +1926,24 @@ impl<'a> Lifter<'a> {
                         }
                         let len = if matches!(r.limits, syn::RangeLimits::Closed(_)) { format!("({} + 1int)", hi.text) } else { hi.text.clone() };
                         let (pn, body) = self.closure1(&mm.args[0], "int")?;
+                        if self.observe.is_some() && body.text.contains("let cap__ =") {
+                            // L17e for map closures: the observable is captured inside the closure body - the body is
+                            // lifted once for an arbitrary element (index `pn` = an uninterpreted function of the inputs)
+                            let Some(ty) = self.loopvars.get(&pn).cloned() else {
+                                return Err(format!("construct outside rule list (lift): observable inside a map closure over `{pn}` (declare loopvars={pn}:int)"));
+                            };
+                            let hname = format!("{}__loopvar_{pn}", self.fn_name);
+                            let decl = format!(
+                                "pub uninterp spec fn {hname}({}) -> {ty};",
+                                self.params.iter().map(|(n, t)| format!("{n}: {t}")).collect::<Vec<_>>().join(", ")
+                            );
+                            if !self.havocs.contains(&decl) {
+                                self.havocs.push(decl);
+                            }
+                            let plist: Vec<String> = self.params.iter().map(|(n, _)| n.clone()).collect();
+                            self.note("L17e", whole.span(), "observable captured inside a map closure (arbitrary element)");
+                            return Ok(v(format!("{{ let {pn} = {hname}({}); {} }}", plist.join(", "), body.text), &body.ty));
+                        }
                         self.note("L8", whole.span(), "range-map-collect lifted to an index function");
                         return Ok(v(format!("RArr {{ len: {len}, at: |{pn}: int| {} }}", body.text), "RArr"));
                     }
@@ -1970,6 +2081,10 @@ impl<'a> Lifter<'a> {
                 ));
             }
             ("len", "OArr") => return Ok(v(format!("{}.len", recv.text), "int")),
+            ("ok", t) if t.starts_with("Result<") && m.args.is_empty() => {
+                let inner = split_top(&t[7..t.len() - 1])[0].trim().to_string();
+                return Ok(v(format!("(match {} {{ Ok(x__) => Some(x__), Err(_) => None }})", recv.text), &format!("Option<{inner}>")));
+            }
             ("unwrap_or", t) if t.starts_with("Option<") => {
                 return Ok(v(format!("(match {} {{ Some(x__) => x__, None => {} }})", recv.text, args[0].text), &args[0].ty));
             }
@@ -2200,7 +2315,12 @@ pub fn lift_fn(ctx: &mut Ctx, blk: &Block) -> Result<(String, Value), String> {
             Some(p) => params.iter().find(|(n, _)| n == p).unwrap().1.clone(),
             None => return Err("construct outside rule list (lift): function returns () and has no &mut parameter".into()),
         },
-        syn::ReturnType::Type(_, t) => lift_type(reg, t, self_ty.as_deref()).map_err(|e| format!("return type: {e}"))?,
+        // observe-only lifts never use the function's own result: a return type outside the subset is opaque
+        syn::ReturnType::Type(_, t) => match lift_type(reg, t, self_ty.as_deref()) {
+            Ok(t) => t,
+            Err(_) if blk.flag("observe_only") => "LOpaque".to_string(),
+            Err(e) => return Err(format!("return type: {e}")),
+        },
     };
     if !matches!(f.sig.output, syn::ReturnType::Default) {
         out_param = None;
@@ -2350,6 +2470,8 @@ pub fn lift_fn(ctx: &mut Ctx, blk: &Block) -> Result<(String, Value), String> {
             observe: observe.clone(),
             calls_seen: HashMap::new(),
             tolerant: blk.flag("tolerant") && observe.is_some(),
+            closure_base: vec![],
+            dirty_captured: vec![],
             loopvars: blk.opt("loopvars").map(|t| t.split(';').filter_map(|kv| kv.split_once(':').map(|(a, b)| (a.trim().to_string(), b.trim().to_string()))).collect()).unwrap_or_default(),
             shared: if blk.flag("share_observed") { outputs.iter().filter_map(|(n, o)| o.clone().map(|o| (o, n.clone()))).collect() } else { HashMap::new() },
             rebound_params: vec![],
